@@ -100,7 +100,8 @@ CLAIMED.update({
                  'uniformity of math/rand on its 2^53 grid is an assumption; the only exception (criteria mixing with fewer than two criteria fires and reports nothing) is part of the statement.',
                  'Coq proof of the firing rule + echo checker and metamorphic runs on Go outputs', 'C08'),
     'C09': claim('Theorems (Properties/C09.v): a bias sequence is a prefix followed by the rest from the state handed on; the report of a bias is fixed by the biases up to it; fatigue, '
-                 'reversal, omission report exactly what they hand on. Tie (the part about Go\'s heap): traced runs dump every state and report at return and again after the whole '
+                 'reversal, omission report exactly what they hand on; apply_bias_faithful / process_biases_faithful: EVERY bias reports what the state handed on holds, along every sequence '
+                 '(checker report_faithful, also evaluated on every traced stage of the implementation). Tie (the part about Go\'s heap): traced runs dump every state and report at return and again after the whole '
                  'decision; request values deep-compared before/after; histories of calls re-using the same decoded Go values with every earlier result deep-compared after every later call.',
                  'partial: absence of hidden state / aliasing in the Go program is established by the history correspondence on the sampled histories, not proved.',
                  'Coq proof of report stability + history correspondence with deep comparisons', 'C09'),
